@@ -146,6 +146,18 @@ def run(ctx):
         raise vf.Inconclusive("TLC evaluated %d of %d vectors" % (nval, len(vecs)))
     ctx.log("TLC verdicts: %s" % dict(tally))
 
+    # vacuity guard: every (kind, version) that exists in the protocol was produced and accepted
+    if not replay:
+        okpairs = set((v["kind"], v["v"]) for vid, v in vecs.items()
+                      if "sum" not in v and not v["err"] and verdicts.get(vid, {"class": "ok"})["class"] == "ok")
+        want = set((k, ver) for k in ("STARTUP", "OPTIONS", "AUTH_RESPONSE", "REGISTER", "QUERY", "PREPARE", "EXECUTE", "BATCH")
+                   for ver in range(1, 6) if not (ver == 1 and k in ("BATCH", "AUTH_RESPONSE")))
+        missing = sorted(want - okpairs)
+        if missing and not any(v.get("class") in ("malformed", "mismatch") for v in verdicts.values()):
+            raise vf.Inconclusive("vacuous run: no accepted frame for %s" % missing)
+        if tally["ok"] * 4 < len(vecs):
+            ctx.notes.append("only %d of %d vectors were plainly ok" % (tally["ok"], len(vecs)))
+
     # ---- 4. violations / drift
     layouts = collections.Counter()
     refused_expr = []
